@@ -62,8 +62,18 @@ def read(path):
 # ------------------------------------------------------------------ pipelines: each returns {artefact: bytes}
 
 def pipe_basm(work, gmp, srcs, flags):
-    rc, out = run_tool([tool("basm")] + flags + ["-o", "out.json"] + srcs, work, gmp)
-    return {"rc": str(rc).encode(), "bondmachine.json": read(os.path.join(work, "out.json")) or b""}
+    rc, out = run_tool([tool("basm")] + flags + ["-o", "out.json", "-dump-requirements", "req.json"] + srcs, work, gmp)
+    return {"rc": str(rc).encode(), "bondmachine.json": read(os.path.join(work, "out.json")) or b"",
+            "requirements.json": read(os.path.join(work, "req.json")) or b""}
+
+
+def pipe_bondgo_mpm(work, gmp, srcfile):
+    shutil.copy(srcfile, os.path.join(work, "p.go"))
+    rc, out = run_tool([tool("bondgo"), "-input-file", "p.go", "-register-size", "8", "-mpm", "-save-assembly", "out.asm", "-save-bondmachine", "bm.json"], work, gmp)
+    res = {"rc": str(rc).encode(), "bondmachine.json": read(os.path.join(work, "bm.json")) or b""}
+    for f in sorted(glob.glob(os.path.join(work, "out.asm_*"))):
+        res[os.path.basename(f)] = read(f) or b""
+    return res
 
 
 def pipe_bondgo(work, gmp, src, rsize):
@@ -131,6 +141,8 @@ def jobs_for(rnd, tier):
         stmts = [(s[0], s[1], c12.normalise(s[2])) if s[0] in ("assign", "write") else s for s in stmts]
         rs = rnd.choice([8, 16, 32])
         jobs.append(("bondgo:prog%d" % k, lambda w, g, s=c12.go_source(nouts, stmts, rs), r=rs: pipe_bondgo(w, g, s, r)))
+    for src in sorted(glob.glob(os.path.join(C.VERIF, "corpus/bondgo/*.go"))):
+        jobs.append(("bondgo-mpm:" + os.path.basename(src), lambda w, g, s=src: pipe_bondgo_mpm(w, g, s)))
     nets = [os.path.join(C.REPO, "cmd/neuralbond", n) for n in ("net-testsmall.json", "net-testnormal.json")]
     for net in nets[:1 if tier == "quick" else 2]:
         for mode in ("romcode", "fragment"):
@@ -204,7 +216,8 @@ def classify(sites):
         if not es:
             unknown.append(s)
             continue
-        e = es[0]
+        # several loops of one function over the same map may be classed differently: the worst class decides
+        e = next((x for x in es if x["class"] not in HARMLESS), es[0])
         counts[e["class"]] = counts.get(e["class"], 0) + 1
         if e["class"] not in HARMLESS:
             reaching.append((s, e))
@@ -302,7 +315,7 @@ def run(res, a):
         for s, e in reaching:
             key = "c07_site_%s_%s_%s" % (s["file"].replace(".go", ""), s["func"].split(".")[-1], "".join(ch for ch in s["expr"] if ch.isalnum()))
             if key in known:
-                res.known_finding("%s %s:%s ranges over %s: %s" % (key, s["pkg"], s["func"], s["expr"], e.get("detail") or e.get("why")))
+                res.known_finding("%s %s:%s ranges over %s: %s" % (key, s["pkg"], s["func"], s["expr"], (e.get("detail") or e.get("why"))[:160]))
             else:
                 res.violation("C07 the visiting order of %s in %s/%s %s can reach an artefact: %s" % (s["expr"], s["pkg"], s["file"], s["func"],
                               e.get("detail") or e.get("why")), {"site": s, "class": e}, nofail=True)
